@@ -630,6 +630,14 @@ fn sel_l_profile(index: u64) -> Profile {
     p
 }
 
+fn c12l_profile(index: u64) -> Profile {
+    let mut p = sel_l_profile(index);
+    p.force_classic = None;
+    p.force_guard = Some(index % 2 == 0);
+    p.config_changes = true;
+    p
+}
+
 fn sel_l_post(plan: &mut LPlan, seed: u64) {
     use crate::lsim::plan::{Action, TimedAction};
     c04_post(plan, seed);
@@ -1145,6 +1153,24 @@ pub fn all() -> Vec<Box<dyn Check>> {
         let l = v.remove(pos);
         let w = Box::new(WCheck { prop: "C19", runs_quick: 80, runs_thorough: 4000 });
         v.insert(pos, Box::new(Multi { id: "C19", parts: vec![l, w], weights: vec![5, 1] }));
+    }
+    // C12: engine K histories plus the relational check around every routing decision of the real shell
+    {
+        let pos = v.iter().position(|c| c.id() == "C12").unwrap();
+        let k = v.remove(pos);
+        let l = Box::new(LCheck {
+            id: "C12",
+            level: "exploration",
+            profile: c12l_profile,
+            post: Some(sel_l_post),
+            monitors: || vec![Box::new(crate::mon::sel_l::C12L::new()) as Box<dyn Monitor>],
+            quick_runs: 60,
+            thorough_runs: 6_000,
+            rule: "closed-loop runs on the real shell (2..4 uplinks, both modes, guard on / off / toggled at run time, low thresholds, black holes, loss, must-land packets, reloads): around every routing decision that is not followed by uplink datagrams in the same loop iteration, every uplink that was handed nothing keeps its liveness / accounting projection; with the guard off all stall state is cleared and the shell's choice equals the real selector's on clones with erased stall history",
+            assumptions: &["links that were handed a datagram in the step (the chosen one, probe copies) are excluded from the projection comparison: queueing and flushing legitimately change their accounting"],
+            probes: &["c12l.guard_state_moved", "c12l.guard_off_decision", "c12l.guard_off_with_history"],
+        });
+        v.insert(pos, Box::new(Multi { id: "C12", parts: vec![k, l], weights: vec![20, 1] }));
     }
     // C11 and C13: engine K histories plus the same monitors on live closed-loop decisions (engine L)
     for (id, mk) in [
